@@ -27,8 +27,17 @@ use swc_trace_macro::swc_trace;
 use thiserror::Error;
 use tracing::debug;
 
-static OPERATION_REGEX: Lazy<Regex> =
-    Lazy::new(|| Regex::new(r"\s*(entrypoint|field|pointer)\s*([^\.\s]+)\.([^\s\(]+)").unwrap());
+// This regex must agree with the compiler's lexer on the first four tokens of an iso literal
+// (keyword, parent type, period, name): white space is any of space, tab, carriage return,
+// line feed, form feed and U+FEFF (and is optional around the period), and identifiers
+// match [a-zA-Z_][a-zA-Z0-9_]*, i.e. a directive, parenthesis or brace may immediately
+// follow the name.
+static OPERATION_REGEX: Lazy<Regex> = Lazy::new(|| {
+    Regex::new(
+        r"^[ \t\r\n\f\x{feff}]*(entrypoint|field|pointer)[ \t\r\n\f\x{feff}]+([a-zA-Z_][a-zA-Z0-9_]*)[ \t\r\n\f\x{feff}]*\.[ \t\r\n\f\x{feff}]*([a-zA-Z_][a-zA-Z0-9_]*)",
+    )
+    .unwrap()
+});
 
 #[derive(Deserialize)]
 #[serde(deny_unknown_fields)]
